@@ -70,6 +70,16 @@ def shape_case(cid, k, mesh, n_node, rows4, **extra):
     if dtype == "bool":
         rows = [[1 if v > 0 else 0 for v in r] for r in rows]
     c = {"prop": PROP, "id": cid, "mesh": mesh, "n_node": n_node, "rows": rows, "den": den, "dtype": dtype, "lead": lead, "k": k}
+    # one block of 18 in six: the data as a chunked dask array
+    c["backing"] = "dask" if (k // 18) % 6 == 1 else "numpy"
+    # one case in four also as a rank-2 array whose node dimension comes FIRST: (n_node, lev); lev is either longer
+    # than n_node (indexing the last axis with node ids stays in bounds) or 2
+    if k % 4 == 1:
+        L = n_node + 1 if (k // 4) % 2 == 0 else 2
+        src = [list(r) for r in rows4]
+        if dtype == "bool":
+            src = [[1 if v > 0 else 0 for v in r] for r in src]
+        c["alt_rows"] = [src[j % 4][j % n_node :] + src[j % 4][: j % n_node] for j in range(L)]
     c.update(extra)
     return c
 
@@ -116,6 +126,11 @@ def record_case(case):
         arr = np.array(case["rows"], dtype=np.int64).reshape(lead + [case["n_node"]])
         data = (arr / case["den"]).astype(npdt) if case["den"] != 1 else arr.astype(npdt)
         dims = rec["lead_dims"] + ["n_node"]
+        rec["backing"] = case.get("backing", "numpy")
+        if rec["backing"] == "dask":
+            import dask.array as da
+
+            data = da.from_array(data, chunks=tuple([1] * len(lead) + [max(1, case["n_node"] // 2)]))
         uxda = ux.UxDataArray(data, dims=dims, uxgrid=g, name="v")
         rows, dt_ok, fill_ok = hux.table(g.edge_node_connectivity)
         rec["edges"] = rows
@@ -170,6 +185,30 @@ def record_case(case):
             raised = True
         unsup.append({"src": "node", "dst": dst, "op": op, "raised": raised})
     rec["unsup"] = unsup
+    # node dimension not last: either refused, or reduced along the node axis with the destination dim in its place
+    if case.get("alt_rows"):
+        ar = case["alt_rows"]
+        a = np.array(ar, dtype=np.int64).T  # (n_node, lev)
+        adata = (a / case["den"]).astype(npdt) if case["den"] != 1 else a.astype(npdt)
+        ada = ux.UxDataArray(adata, dims=["n_node", "lev"], uxgrid=g, name="v")
+        alt = {"rows": ar, "res": {}}
+        for dest in DESTS:
+            alt["res"][dest] = {}
+            for op in [OPS[k % 10], OPS[(k + 3) % 10], OPS[(k + 7) % 10]]:
+                try:
+                    out = getattr(ada, "topological_" + op)(destination=dest)
+                    vals = np.asarray(out.values, dtype=float)
+                    dname = "n_" + dest
+                    e = {"dims": [str(d) for d in out.dims], "shape": [int(x) for x in vals.shape], "cls": type(out).__name__}
+                    if dname in out.dims and vals.ndim == 2:
+                        moved = np.moveaxis(vals, list(out.dims).index(dname), -1)
+                        e["v"] = [[proj(x, op == "std") for x in row.tolist()] for row in moved]
+                    else:
+                        e["v"] = []
+                    alt["res"][dest][op] = e
+                except Exception:  # noqa - refusing the layout is acceptable
+                    alt["res"][dest][op] = {"raised": True}
+        rec["alt"] = alt
     rec["sizes"] = {"n_node": case["n_node"], "n_face": n_face, "n_edge": n_edge}
     return rec
 
@@ -246,22 +285,21 @@ def judge_records(ctx, recs, by_id):
         raise Machinery("judge visited %d states for %d records" % (res.distinct, len(recs)))
     os.remove(path)
     ctx.traces += len(recs)
-    failed = {}
+    failed, shapes = {}, {}
     for v in res.prints:
         if isinstance(v, tuple) and len(v) == 3 and v[0] == "V":
             failed.setdefault(recs[v[1] - 1]["id"], set()).add(v[2])
+        elif isinstance(v, tuple) and len(v) == 3 and v[0] == "S":
+            shapes.setdefault(recs[v[1] - 1]["id"], set()).add(v[2])
     if res.out.count('"V"') != sum(len(x) for x in failed.values()):
         raise Machinery("judge output not fully parsed: %d verdict lines, %d parsed" % (res.out.count('"V"'), sum(len(x) for x in failed.values())))
     for rid, cl in failed.items():
         c = by_id[rid]
         for clause in sorted(cl):
-            ctx.violation(
-                rid,
-                clause,
-                detail={"failed": sorted(cl)},
-                replay=c,
-                sig={"scope": rid.split(":")[0], "dtype": c["dtype"], "rank": len(c["lead"]) + 1},
-            )
+            sig = {"scope": rid.split(":")[0], "dtype": c["dtype"], "rank": len(c["lead"]) + 1}
+            if clause.startswith("Layout_") and clause[7:] in shapes.get(rid, ()):
+                sig["shape"] = "GatherOnLastAxis"  # decided by TLC: node axis kept, gather applied to the last axis
+            ctx.violation(rid, clause, detail={"failed": sorted(cl)}, replay=c, sig=sig)
     return failed
 
 
@@ -288,14 +326,17 @@ def run(ctx):
             cases.append(shape_case("%s:%d" % (tag, k), k, mesh, n_node, rows4))
 
     add("s3f3", gen_scope(ctx, "s3f3", 3, 3, [3]), 3)  # n_node = n_face = n_edge = 3 occurs here
-    add("s4f2", gen_scope(ctx, "s4f2", 4, 2, [3, 4], npat=2), 4, pick=None if thorough else 2000)
+    add("s4f2", gen_scope(ctx, "s4f2", 4, 2, [3, 4], npat=2), 4, pick=None if thorough else 1500)
     if thorough:
         add("s5f2", gen_scope(ctx, "s5f2", 5, 2, [3, 4, 5]), 5, pick=20000)
         add("c5f3", gen_scope(ctx, "c5f3", 5, 3, [3, 4, 5], canon=True, npat=2), 5)
         add("s4f3", gen_scope(ctx, "s4f3", 4, 3, [3, 4], invs=["TypeOK", "L2_Partition"]), 4, pick=8000)
     else:
-        add("s5f2", gen_scope(ctx, "s5f2", 5, 2, [3, 5], invs=["TypeOK", "L2_Partition"]), 5, pick=800)
-        add("c5f3", gen_scope(ctx, "c5f3", 5, 3, [3, 4, 5], canon=True), 5, pick=1000)
+        add("s5f2", gen_scope(ctx, "s5f2", 5, 2, [3, 5], invs=["TypeOK", "L2_Partition"]), 5, pick=600)
+        add("c5f3", gen_scope(ctx, "c5f3", 5, 3, [3, 4, 5], canon=True, invs=["TypeOK", "L2_Partition", "L2_FaceAgg"]), 5, pick=700)
+    # face sizes with gaps (triangles + pentagons, quads + hexagons), all face orderings
+    add("g5f3", gen_scope(ctx, "g5f3", 5, 3, [3, 5], canon=True), 5, pick=None if thorough else 500)
+    add("g6f3", gen_scope(ctx, "g6f3", 6, 3, [4, 6], canon=True, invs=INVS if thorough else ["TypeOK", "L2_Partition", "L2_FaceAgg"]), 6, pick=None if thorough else 400)
     ctx.exhaustive = True
     n_small = len(cases)
 
@@ -356,7 +397,8 @@ def run(ctx):
         "projection of a float result to the nearest rational with denominator <= 4096 plus exact / 1e-12 flags (Python fractions); the equality with the expected rational is decided by TLC",
         "the edge destination is judged against the grid's own edge_node_connectivity (its correctness is C02)",
         "data are small integers or halves, so sums / products / extrema are exact in binary floating point",
-        "node dimension last (the property's 'leading index'); dask-backed data not exercised",
+        "node dimension not last: a refusal (raise) or the reduction along the node axis are both accepted; other numbers are a violation",
+        "dask-backed (chunked) node data exercised on one block of cases in six; results are computed eagerly by the library",
     ]
 
 
